@@ -1,4 +1,4 @@
-OPEN "pre.txt" FOR RANDOM AS #1 LEN = 4
-FIELD #1, 4 AS F1$
+OPEN "a.txt" FOR OUTPUT AS #1
+PRINT #1, "p" + CHR$(200) + "q"
 CLOSE #1
 PRINT "end"
